@@ -30,7 +30,7 @@ func dnsPkgFuncs(w *World) []*ssa.Function {
 }
 
 func checkC07(w *World, r *Report) {
-	r.Explanation = "Decides structural conditions without which the seq/ack design cannot be right for all histories: (R07.1) 16-bit sequence/ack numbers are used only through ==, !=, +/- constants, stores and calls — never ordered comparisons or widening — so the queue logic is invariant under rotation of the starting number, i.e. across the wrap; (R07.2) the bounded memory of acknowledged numbers evicts from the head (oldest first) and every append is followed on all paths by a bound that restores the limit; (R07.3) every mutex Lock in the DNS packages is released on every path (or deferred); (R07.4) closures run under a queue mutex perform no blocking channel operation; (R07.5) every packet request/response built for sending acknowledges in.NextSeqNo-1 of the sender's own in-queue and every receive path feeds the peer's ack to out.UpdateAcked and the payload to in.Append of the same endpoint; (R07.6) the chunking loop's stride is guaranteed positive. Not decided: delivery, retransmission convergence, duplicate suppression over real fault histories, liveness."
+	r.Explanation = "Decides structural conditions without which the seq/ack design cannot be right for all histories: (R07.1) 16-bit sequence/ack numbers are used only through ==, !=, +/- constants, stores and calls — never ordered comparisons or widening — so the queue logic is invariant under rotation of the starting number, i.e. across the wrap; (R07.2) the bounded memory of acknowledged numbers evicts from the head (oldest first) and every append is followed on all paths by a bound that restores the limit; (R07.3) every mutex Lock in the DNS packages is released on every path (or deferred); (R07.4) closures run under a queue mutex perform no blocking channel operation; (R07.5) every packet request/response built for sending acknowledges in.NextSeqNo-1 of the sender's own in-queue and every receive path feeds the peer's ack to out.UpdateAcked and the payload to in.Append of the same endpoint; (R07.6) the chunking loop's stride is guaranteed positive; (R07.13) the consumers of decoded answers read their ack/payload/option fields only on the Err == nil edge (an error answer carries zero values: acting on them acknowledges packet 0). Not decided: delivery, retransmission convergence, duplicate suppression over real fault histories, liveness."
 	r.NotDecided = []string{"delivery / retransmission convergence under loss histories", "successful write => delivered", "liveness once the path stops losing"}
 	r.Trusted = []string{"sync.Mutex semantics", "uint16 arithmetic wraps"}
 	r.Rule("R07.1", "sequence numbers are used only in wrap-safe ways", 10)
@@ -44,6 +44,7 @@ func checkC07(w *World, r *Report) {
 	r.Rule("R07.9", "packets are retired only on a matching acknowledgement; the oldest is (re)sent first", 2)
 	r.Rule("R07.10", "a write succeeds only after its packets were acknowledged", 1)
 	r.Rule("R07.12", "the byte count of a write covers every chunk it queued", 1)
+	r.Rule("R07.13", "ack/payload fields of an answer that can carry an error reach the queues only where its Err is nil", 1)
 	r.Rule("R07.11", "out-of-order packets are parked once: unseen, inside the window, remembered", 1)
 
 	fns := dnsPkgFuncs(w)
@@ -54,6 +55,7 @@ func checkC07(w *World, r *Report) {
 	c07Piggyback(w, r)
 	c07Stride(w, r)
 	c07Bookkeeping(w, r)
+	c07ErrGuardedFields(w, r)
 }
 
 // seqFields: struct fields of type uint16 that carry sequence numbers (by
@@ -1207,4 +1209,166 @@ func c07Parked(w *World, r *Report, rule string, fn *ssa.Function, inQ *types.Na
 		return
 	}
 	r.Check(bad == "" && ngrow > 0, rule, key, w.Pos(fn.Pos()), fmt.Sprintf("%d parking path(s): not seen before, inside the window, remembered as seen", ngrow), bad+mapStr(ngrow == 0, "no parking path found"))
+}
+
+// c07ErrGuardedFields: R07.13 — command answers that can carry an error (a
+// struct of package commands with an `Err error` field) leave every other
+// field zero when Err is set. Where such a field feeds the seq/ack queues it
+// may be read only with Err == nil established (edge dominance).
+func c07ErrGuardedFields(w *World, r *Report) {
+	errGuardedFieldReads(w, r, "R07.13", "queue", "an error answer carries zero values, so this acknowledges / appends packet 0 of a refused exchange: the packet numbered 0 is dropped unsent (or a nil packet appended)")
+}
+
+// errGuardedFieldReads finds, in the DNS tunnel's consumers of decoded
+// answers, every read of a non-Err field of an Err-bearing answer struct whose
+// value flows into the given kind of sink ("queue": a method of
+// util.InQueue/OutQueue; "session-id": a store to the client's user id) and
+// requires the read to lie on the Err == nil edge of a test of that answer.
+func errGuardedFieldReads(w *World, r *Report, rule, sink, consequence string) {
+	cmds := w.Pkg("internal/streams/dns/commands")
+	if cmds == nil {
+		r.Undecided(rule, "anchor", "-", "package commands not found")
+		return
+	}
+	errIdx := map[*types.Named]int{}
+	sc := cmds.Types.Scope()
+	for _, nm := range sc.Names() {
+		tn, ok := sc.Lookup(nm).(*types.TypeName)
+		if !ok {
+			continue
+		}
+		n, ok := tn.Type().(*types.Named)
+		if !ok {
+			continue
+		}
+		st, ok := n.Underlying().(*types.Struct)
+		if !ok || st.NumFields() < 2 {
+			continue
+		}
+		for i := 0; i < st.NumFields(); i++ {
+			if st.Field(i).Name() == "Err" && types.Identical(st.Field(i).Type(), types.Universe.Lookup("error").Type()) {
+				errIdx[n] = i
+			}
+		}
+	}
+	if len(errIdx) == 0 {
+		r.Undecided(rule, "anchor", "-", "no answer type with an Err field found")
+		return
+	}
+	inQ, outQ := w.Named("internal/streams/dns/util", "InQueue"), w.Named("internal/streams/dns/util", "OutQueue")
+	reaches := func(v ssa.Value) bool {
+		seen := map[ssa.Value]bool{}
+		var walk func(v ssa.Value, d int) bool
+		walk = func(v ssa.Value, d int) bool {
+			if seen[v] || d > 6 || v.Referrers() == nil {
+				return false
+			}
+			seen[v] = true
+			for _, ref := range *v.Referrers() {
+				switch x := ref.(type) {
+				case ssa.CallInstruction:
+					if sink == "queue" {
+						if f := sCallee(x); f != nil {
+							if rn := recvNamed(f); rn != nil && (rn == inQ || rn == outQ) {
+								return true
+							}
+						}
+					}
+				case *ssa.Store:
+					if sink == "session-id" && x.Val == v {
+						if fa := asFieldAddr(x.Addr); fa != nil {
+							if fv := fieldVarOf(fa); fv != nil && strings.EqualFold(fv.Name(), "userId") {
+								return true
+							}
+						}
+					}
+				}
+				if val, ok := ref.(ssa.Value); ok {
+					switch ref.(type) {
+					case *ssa.Convert, *ssa.ChangeType, *ssa.Phi, *ssa.MakeInterface, *ssa.BinOp:
+						if walk(val, d+1) {
+							return true
+						}
+					}
+				}
+			}
+			return false
+		}
+		return walk(v, 0)
+	}
+	type site struct {
+		bad []string
+		n   int
+		pos string
+	}
+	sites := map[string]*site{}
+	for fn := range allModuleFuncs(w, w.SSA()) {
+		f0 := fn
+		for f0.Parent() != nil {
+			f0 = f0.Parent()
+		}
+		if f0.Pkg == nil || f0.Pkg.Pkg.Path() != modPath+"/internal/streams/dns" {
+			continue
+		}
+		allInstrs(fn, func(in ssa.Instruction) {
+			fa, ok := in.(*ssa.FieldAddr)
+			if !ok {
+				return
+			}
+			pt, ok := fa.X.Type().Underlying().(*types.Pointer)
+			if !ok {
+				return
+			}
+			n, ok := pt.Elem().(*types.Named)
+			if !ok {
+				return
+			}
+			ei, has := errIdx[n]
+			if !has || fa.Field == ei {
+				return
+			}
+			if _, isAlloc := fa.X.(*ssa.Alloc); isAlloc {
+				return // built here, not a decoded answer
+			}
+			flows := false
+			for _, ref := range *fa.Referrers() {
+				if u, ok := ref.(*ssa.UnOp); ok && u.Op == token.MUL && reaches(u) {
+					flows = true
+				}
+			}
+			if !flows {
+				return
+			}
+			key := "consumer:" + ssaFuncKey(fn) + "|" + n.Obj().Name()
+			s := sites[key]
+			if s == nil {
+				s = &site{pos: w.Pos(fn.Pos())}
+				sites[key] = s
+			}
+			s.n++
+			isErrTest := func(v ssa.Value) bool {
+				x, _, ok := nilTest(v)
+				if !ok {
+					return false
+				}
+				u, ok := x.(*ssa.UnOp)
+				if !ok {
+					return false
+				}
+				efa, ok := u.X.(*ssa.FieldAddr)
+				return ok && efa.Field == ei && efa.X == fa.X
+			}
+			if !dominatedByCondNil(fn, in, isErrTest) {
+				fname := n.Underlying().(*types.Struct).Field(fa.Field).Name()
+				s.bad = append(s.bad, fmt.Sprintf("%s: %s.%s is consumed without Err == nil being established: %s", w.Pos(fa.Pos()), n.Obj().Name(), fname, consequence))
+			}
+		})
+	}
+	if len(sites) == 0 {
+		r.Undecided(rule, "consumer:*", "-", "no consumer of an answer field feeding the "+sink+" found (anchor moved?)")
+	}
+	for key, s := range sites {
+		sort.Strings(s.bad)
+		r.Check(len(s.bad) == 0, rule, key, s.pos, fmt.Sprintf("%d field read(s) feeding the %s, all on the Err == nil edge", s.n, sink), strings.Join(s.bad, "; "))
+	}
 }
